@@ -1,8 +1,14 @@
 """C19 (partial) — stop() interrupts any solver promptly, leaving valid results.
-proof: Properties_C19.v (generated status chain, loop skeleton, ALM propagation, exit block);
+proof: Properties_C19.v — generated status chain, loop skeleton, ALM propagation, exit block; PROMPTNESS of a sticky request on the
+whole-loop models (StopPrompt*.v): PANOC, ZeroFPR (line-search pass bound, stop at the next while-test, exit at the next stop check,
+consecutive polls, request-to-return, no direction call after the poll that sees the request), PANTR, FISTA (one poll per iteration: the
+iteration in progress completes), PANOC-OCP; validity of Interrupted outputs (C03 relations); ALM over all four inner solvers (every
+inner solve started after the request is start-up + one stop check; Interrupted is propagated at once).
 exploration (exhaustive fault enumeration on fixed problems): stop() is called from inside problem-function evaluation #j for every j,
-from every progress callback, and from every call of a scripted direction provider; status, tail length, outputs (C03 relations) and
-ALM propagation are checked.  Not covered: real threads / data-race freedom of the atomic flag."""
+from every progress callback, and from every call of a scripted direction provider; status, tail length (PROVED bounds where a model
+theorem exists, converted to user-function calls), callbacks / direction calls after the request, outputs (C03 relations) and ALM
+propagation are checked.  Not covered: real threads / data-race freedom of the atomic flag.
+FINDING recorded in coverage['alm_probe']: under ALM the number of inner solves started after a visible request is not bounded by one."""
 import math
 from vf.core import *
 from vf import solvelib as sl
@@ -39,6 +45,44 @@ def make_req(prob, solver, direction, mode, **kw):
     return sl.Request(prob, x0, y0, S0, solver, direction, mode, params, always=kw.pop("always", False), tol=1e-10, script=script,
                       script_initial=(direction == "scripted"), **kw)
 
+# ---- proved promptness bounds (Properties_C19.v, StopPrompt*.v), converted to the driver's unit.
+# The models count ORACLE calls (eval_ψ_grad_ψ, eval_ψ, eval_grad_L, eval_grad_ψ = 1 each); drv_solve counts USER-function calls
+# (f, ∇f, g, ∇g·y).  With the default compositions of type-erased-problem.tpp one oracle call is at most W user calls
+# (Corr_PANOC.evals_of: m > 0: 4/2/2/3, m = 0: 2/1/1/1).  A request issued inside user call #j lands inside one oracle call
+# (<= W-1 user calls left in it); after that oracle call the theorems allow K further oracle calls:
+#   PANOC   K = 3  (C19_panoc_linesearch_pass_bound: <= 1 more in the pass begun; C19_panoc_between_polls: <= 1 before the next check;
+#                   C19_panoc_stop_is_prompt: <= 2 after a line-search test that sees it, <= 1 after a check that sees it)
+#   ZeroFPR K = 2  (C19_zerofpr_linesearch_pass_bound, C19_zerofpr_stop_is_prompt)
+#   FISTA   K = 5 + stepsize_backtracks (C19_fista_pass_in_progress_bound: the pass in progress completes, the backtracking loop is
+#                   not polled; C19_fista_stop_is_prompt: <= 1 after the check)
+#   start-up (request before the first check): PANOC 5, ZeroFPR 4, FISTA 6 oracle calls in all, + the halvings of the unpolled
+#                   initial step-size loop (C19_*_stop_before_start)
+#   PANTR   the check that sees the request returns with no further oracle call (C19_pantr_stop_is_prompt); the iteration in
+#           progress completes first and contains a direction.apply whose cost (Steihaug CG, one Hessian-vector product per
+#           iteration) is not a constant of the theorem: evaluations keep the empirical bound, callbacks are checked
+#   under ALM (all four inner solvers): the solve in which the request lands as above; EVERY later inner solve is start-up + one
+#           stop check (one callback, k = 0, no direction call) and the first that returns Interrupted is the last
+#           (C19_alm_panoc_stop_is_prompt, C19_alm_{zerofpr,pantr,fista}_stop_is_prompt); the number of later solves is NOT bounded
+#           by one (finding C19_alm_one_further_solve_refuted) — the bound is per later solve.
+PROVED_K = {"panoc": 3, "zerofpr": 2}
+STARTUP_K = {"panoc": 5, "zerofpr": 4, "fista": 6}
+NBT_CAP = 84      # ceil(log2(L_max / L_min)) for the default 1e20 / 1e-5: halvings of one unpolled step-size loop
+
+def proved_inner_bound(solver, m, o):
+    """(bound on user-function calls after the one in which stop() was called, text) for a stand-alone solve; None if no theorem"""
+    W = 4 if m > 0 else 2
+    nbt = int(o.get("stepsize_backtracks", 0))
+    if solver in PROVED_K:
+        loop = W * (PROVED_K[solver] + 1) - 1
+        start = W * (STARTUP_K[solver] + nbt) - 1
+        if o["cbs_at_stop"] == 0:          # no callback yet: the request may have landed in the start-up
+            return max(loop, start), "max(loop %d, start-up %d)" % (loop, start)
+        return loop, "loop: W=%d x (1 + K=%d) - 1" % (W, PROVED_K[solver])
+    if solver == "fista":
+        b = W * (STARTUP_K["fista"] + nbt) - 1
+        return b, "W=%d x (6 + stepsize_backtracks=%d) - 1" % (W, nbt)
+    return None
+
 def gaps(o):
     """evaluation counts between consecutive callbacks (and before the first) of an unstopped run"""
     ev = [r["evals"] for r in o["records"]]
@@ -51,7 +95,11 @@ def run(ctx):
     ctx.coverage["rule"] = ("fault enumeration: for 3 fixed problems x 12 solver stacks (10 shipped + 2 with a scripted direction) x {stand-alone, under ALM}: stop() injected at every problem-function "
                             "evaluation index (quick: the first 30 and every 3rd after), every callback index and every direction-provider call; distinct = (problem, solver, mode, injection point kind, final status) signature")
     ctx.assumptions += ["PARTIAL: asynchronous stop() from another thread and data-race freedom of AtomicStopSignal (relaxed load / store on std::atomic<bool>) are runtime behaviour that no Gallina model exhibits; not claimed",
-                        "promptness is bounded empirically: evaluations after the request <= (largest number of evaluations between two callbacks of the unstopped run, or before the first callback) + 8",
+                        "promptness: PROVED bounds (Properties_C19.v) for PANOC, ZeroFPR, FISTA stand-alone and under ALM, converted to user-function calls (one oracle call <= 4 user calls, <= 2 when m = 0); for all four solvers under ALM every inner solve started after the request must be start-up + one stop check (proved); "
+                        "EMPIRICAL evaluation bound for PANTR (the direction's Hessian-vector products are not a constant of the theorem): "
+                        "evaluations after the request <= (largest number of evaluations between two callbacks of the unstopped run, or before the first callback) + 8 (2G+8 under ALM)",
+                        "FINDING (not a violation of the interpretation in DESIGN §10, reported): under ALM the number of inner solves started after a visible request is not bounded by one; "
+                        "each of them is start-up + one stop check (checked), see C19_alm_one_further_solve_refuted and the probe counted in coverage['alm_probe']",
                         "the initial Lipschitz estimate and the step-size backtracking loops are not polled (counted in the bound above)",
                         "ALM does not poll the flag itself: if the inner solve ends with a status ranked above Interrupted at the check that sees the request, the next inner solve starts and returns Interrupted at its first check (bound 2G+8 under ALM)",
                         "PANOC-OCP: chain identical by theorem; its runs are covered by C13"]
@@ -125,9 +173,68 @@ def run(ctx):
         tail = o["evals"] - o["evals_at_stop"] - (1 if kind == "eval" else 0)
         # under ALM a request that lands in the last iteration of an inner solve which then ends with a higher-ranked status (Converged,
         # MaxIter...) is seen by the first check of the NEXT inner solve (ALM itself does not poll): one more start-up + first iteration
-        bound = (G + 8) if mode == "inner" else (2 * G + 8)
-        if tail > bound:
-            ctx.violation("C19:not-prompt:" + tag, "%d further evaluations after stop() (bound %d; largest per-iteration count of the unstopped run %d)" % (tail, bound, G), info)
+        m = rq.prob.m
+        recs_all = o["records"]
+        proved = proved_inner_bound(solver, m, o) if mode == "inner" else None
+        if mode == "inner":
+            # callbacks after the request: at most the Busy callback of the iteration in progress + the final one (all four models)
+            ncb = o["cbs"] - o["cbs_at_stop"]
+            if ncb > 2:
+                ctx.violation("C19:not-prompt:callbacks:" + tag, "%d progress callbacks after stop() (proved: at most the one of the iteration in progress and the final one)" % ncb, info)
+            # nothing but the exit block after the final callback: <= 1 oracle call (PANOC eager / FISTA fixed-step), 0 for ZeroFPR, PANTR
+            if recs_all:
+                after_final = o["evals"] - recs_all[-1]["evals"]
+                lim = {"panoc": 2, "fista": 2, "zerofpr": 0, "pantr": 0}[solver]
+                if after_final > lim:
+                    ctx.violation("C19:not-prompt:after-final-check:" + tag, "%d evaluations after the final stop check (proved: <= %d)" % (after_final, lim), info)
+        # stop() issued INSIDE direction call #j of the scripted provider: no further direction call (StopPromptGap.loop_stop_inside_direction_call
+        # / StopPromptGapZ: the next poll sees the request and nothing calls the direction after it); only direction.initialize (call 0,
+        # k = 0) is followed by the direction.apply of the same iteration
+        if kind == "dir" and mode == "inner" and solver in ("panoc", "zerofpr"):
+            allowed = j + 1 + (1 if j == 0 else 0)
+            if o.get("dircalls", 0) > allowed:
+                ctx.violation("C19:direction-call-after-stop:" + tag, "%d direction calls in all although stop() was issued inside direction call #%d (proved: none after it%s)"
+                              % (o["dircalls"], j, "; initialize is followed by apply" if j == 0 else ""), info)
+        if proved is not None:
+            bound, how = proved
+            ctx.count("promptness/proved-bound")
+            if tail > bound:
+                ctx.violation("C19:not-prompt:" + tag, "%d further evaluations after stop() (PROVED bound %d = %s)" % (tail, bound, how), info)
+        elif mode == "alm":
+            # C19_alm_panoc_stop_is_prompt / C19_alm_{zerofpr,pantr,fista}_stop_is_prompt
+            W = 4
+            # final callbacks (one per inner solve) issued after the request: the solve in progress, then the later ones
+            fin_after = [r for r in recs_all if r["status"] != "Busy" and r["evals"] > o["evals_at_stop"]]
+            later = fin_after[1:]
+            later_outer = set(r["outer"] for r in later)
+            for oi in sorted(later_outer):
+                rs = [r for r in recs_all if r["outer"] == oi]
+                if len(rs) != 1 or rs[0]["k"] != 0 or rs[0]["status"] == "Busy":
+                    ctx.violation("C19:alm-inner-solve-iterates-after-stop:" + solver,
+                                  "inner solve of outer iteration %d was started after stop() and made %d callbacks / reached k=%d (proved: start-up + one stop check)"
+                                  % (oi, len(rs), max(r["k"] for r in rs)), info)
+            for r in later[:-1]:
+                if r["status"] == "Interrupted":
+                    ctx.violation("C19:alm-continued-after-interrupted:" + solver, "an inner solve after outer iteration %d although it returned Interrupted" % r["outer"], info)
+            if solver in STARTUP_K:
+                ctx.count("promptness/proved-bound")
+                kloop = PROVED_K.get(solver, STARTUP_K[solver] + NBT_CAP - 1)       # FISTA: the pass in progress incl. its unpolled backtracking
+                first = max(W * (kloop + 1) - 1, W * (STARTUP_K[solver] + NBT_CAP) - 1)
+                bound = first + len(later) * W * (STARTUP_K[solver] + NBT_CAP) + 3      # + compute_kkt_error of the driver
+                if tail > bound:
+                    ctx.violation("C19:not-prompt:" + tag, "%d further evaluations after stop() (PROVED bound %d for %d later one-check inner solves)" % (tail, bound, len(later)), info)
+            else:
+                ctx.count("promptness/empirical-bound")
+            # the interpretation bound of DESIGN §10 stays in force as well (it is what a user sees) while at most one inner solve follows
+            if tail > 2 * G + 8 and len(later) <= 1:
+                ctx.violation("C19:not-prompt:" + tag, "%d further evaluations after stop() (bound 2G+8 = %d with at most one later inner solve)" % (tail, 2 * G + 8), info)
+            if len(later) > 1:
+                ctx.count("alm/more-than-one-later-inner-solve")
+        else:
+            ctx.count("promptness/empirical-bound")
+            bound = (G + 8) if mode == "inner" else (2 * G + 8)
+            if tail > bound:
+                ctx.violation("C19:not-prompt:" + tag, "%d further evaluations after stop() (bound %d; largest per-iteration count of the unstopped run %d)" % (tail, bound, G), info)
         # (3) outputs consistent
         if mode == "inner":
             for sig, msg in C03.oracle("stop", rq, o):
@@ -154,6 +261,29 @@ def run(ctx):
                         ctx.violation(sig.replace("C03:", "C19:outputs:"), "ALM after stop at %s #%d: %s" % (kind, j, msg), dict(info, why=msg))
                 elif not all(math.isfinite(t) for t in x_out):
                     ctx.violation("C19:outputs:x-not-finite:" + solver + ":alm", "ALM returned non-finite x after stop", info)
+    # probe for the ALM finding (C19_alm_one_further_solve_refuted): min -x, x in [0,1], x <= 1/2, x0 = 1, Σ0 = 0.01; stop() inside
+    # evaluation #0.  Inner solves 0..2 end at their first check with Converged (ranked above Interrupted), ALM does not poll.
+    # Recorded, and checked against what IS proved (every solve is start-up + one check; the first Interrupted one is the last).
+    pp = sl.Problem(1, 1, [[0.0]], [-1.0], [0.0], [[1.0]], [0.0], [0.0], [1.0], [-INF], [0.5])
+    probe = {}
+    for solver, direction in [("panoc", "lbfgs"), ("zerofpr", "lbfgs"), ("pantr", "newtontr"), ("fista", "-")]:
+        prm = ["solver.max_iter=50", "solver.stop_crit=ProjGradNorm", "alm.max_iter=20", "alm.tolerance=1e-8", "alm.dual_tolerance=1e-8",
+               "alm.initial_tolerance=1", "alm.initial_penalty=0.01"] + (["dir.finite_diff=true"] if solver == "pantr" else [])
+        rq = sl.Request(pp, [1.0], [0.0], [0.01], solver, direction, "alm", prm, always=True, tol=0.0, stop_at_eval=0)
+        po = run_driver(ctx, "solve", rq.to_input(), timeout=120)
+        if not po or "exc" in po[0]:
+            probe[solver] = "no result"; continue
+        po = po[0]
+        recs = po["records"]
+        probe[solver] = {"status": po["status"], "outer_iterations": po.get("outer_iterations"), "evaluations_after_stop": po["evals"] - 1,
+                         "inner_statuses": [r["status"] for r in recs if r["status"] != "Busy"]}
+        ctx.case("alm-probe/%s/%s/%d-inner-solves" % (solver, po["status"], len(recs)))
+        info = {"driver": "drv_solve", "input": rq.to_input(), "request": rq.describe(), "impl_output": {k: v for k, v in po.items() if k != "records"}}
+        if any(r["k"] != 0 or r["status"] == "Busy" for r in recs) or len(set(r["outer"] for r in recs)) != len(recs):
+            ctx.violation("C19:alm-inner-solve-iterates-after-stop:" + solver, "probe: an inner solve started after stop() made an iteration", info)
+        if any(r["status"] == "Interrupted" for r in recs[:-1]) or (recs and recs[-1]["status"] == "Interrupted") != (po["status"] == "Interrupted"):
+            ctx.violation("C19:alm-continued-after-interrupted:" + solver, "probe: Interrupted inner solve is not the last / not propagated", info)
+    ctx.coverage["alm_probe"] = probe
     ctx.coverage["exhaustive"] = not ctx.quick()
     ctx.coverage["injection_runs"] = len(reqs)
     # whole-loop ties with stop injection: the verified loop models of PANOC / ZeroFPR / PANTR (stop requests at evaluation, callback and
